@@ -300,6 +300,20 @@ pub struct RdHandles {
     pub start_words: usize,
 }
 
+thread_local! {
+    /// Word position the next backend built by `mk_rd_backend` is moved to (with its own
+    /// `set_word_pos`) before a reader is created over it; consumed by that call.
+    static PRESEEK_WORDS: std::cell::Cell<usize> = const { std::cell::Cell::new(0) };
+}
+
+/// Build readers inside `f` over backends that are already positioned at word `k`.
+pub fn with_preseek<T>(k: usize, f: impl FnOnce() -> T) -> T {
+    PRESEEK_WORDS.with(|c| c.set(k));
+    let r = f();
+    PRESEEK_WORDS.with(|c| c.set(0));
+    r
+}
+
 fn mk_rd_backend<W: SimWord>(spec: &RdBackend, bytes: &[u8]) -> (AnyWordRead<W>, RdHandles) {
     let words: Vec<W> = bytes_to_words::<W>(bytes);
     let n_words = words.len();
@@ -369,6 +383,10 @@ fn mk_rd_backend<W: SimWord>(spec: &RdBackend, bytes: &[u8]) -> (AnyWordRead<W>,
     };
     let mut b = AnyWordRead::new(inner);
     b.cursor = start_words as u64;
+    let pre = PRESEEK_WORDS.with(|c| c.replace(0)).min(n_words);
+    if pre > 0 && start_words == 0 && b.set_word_pos(pre as u64).is_ok() {
+        start_words = pre;
+    }
     let h = RdHandles {
         stats: b.stats.clone(),
         disk,
